@@ -8,12 +8,17 @@ import (
 	"verifharness/hxlib"
 )
 
-const ruleText = "a case is one sandbox (component fst|ds|upd, root at depth 1-4 below the sandbox top, surrounded by ancestors with files, " +
-	"siblings '<root>-other', '<root>x', 'other' holding well-formed decoys) plus 8-24 calls with generated names: benign segment paths, " +
+const ruleText = "a case is one sandbox (component fst|ds|dsh|upd, root at depth 1-4 below the sandbox top, surrounded by ancestors with files, " +
+	"siblings '<root>-other', '<root>x', 'other' (well-formed decoys + plain files) and '<root>-old' (decoy only)) plus 8-24 calls with generated names: benign segment paths, " +
 	"existing entries, mixes of '.', '..', empty segments and odd segments, climbs of 1..depth+3 parent references followed by a sibling / " +
 	"ancestor / the root's own name, absolute paths (below the root, the root itself with suffixes '/', '/.', '/..', '-other', 'x', siblings, " +
-	"sandbox top, '/'), relative scan roots against several working directories, zip archives with 1-5 such entry names; a separate stream " +
-	"(implementation + oracle only) has NUL bytes, 300-byte segments and climbs of depth+6. lib cases compare filepath.Clean/Dir/Join/Rel and " +
+	"sandbox top, '/'), relative scan roots against several working directories, zip archives with 1-5 such entry names. " +
+	"fst: Put/Get/GetMeta/Delete/Query; a third of the names resolve to the root itself ('', '.', '../<root>', 'd/..'); 'fss' lines change what stands at the root's place " +
+	"behind the open database (root removed, replaced by a record file, intermediate directory missing / replaced by a file, extra entries extending a directory's name, a non-record file, empty). " +
+	"dsh: a history of calls on ONE DirStructure tree (ChildDir with plain, multi-element and escaping names on any node; Ensure on any node; EnsureAbsPath/EnsureRelPath/EnsureRelDir " +
+	"aimed at every element (in particular the base name) of the names children were registered with, below the child's parent, from the root, or through another node; generic names); " +
+	"the directory content is emptied before every call, created directories are compared with their modes. upd: storage dir as top-level structure or (variant nested) as a child node of a structure rooted at its parent. " +
+	"A separate stream (implementation + oracle only) has NUL bytes, 300-byte segments, NAME_MAX boundaries inside and outside the root and climbs of depth+6. lib cases compare filepath.Clean/Dir/Join/Rel and " +
 	"path.Base with the model on every string over {'/','.','a'} up to length 6 (pairs up to length 3) and on random strings. " +
 	"A case is non-trivial if at least one of its names contains a parent reference, an absolute prefix or a sibling name; distinct by the hash of its lines."
 
@@ -200,6 +205,25 @@ func (g *gctx) absName() (string, string) {
 // name a child was registered with, in particular its base name, requested below the child's parent — directly,
 // from the root, or through another node), and generic names.  The generator mirrors the node numbering
 // (a repeated ChildDir with the same name on the same node returns the existing child).
+// climbsOut: would resolving p lexically from "/" leave the first level of the virtual world (the disposable case
+// directory)?  Chained ChildDir names add up their parent references; no generated request may point above it.
+func climbsOut(p string) bool {
+	depth := 0
+	for _, sg := range strings.Split(p, "/") {
+		switch sg {
+		case "", ".":
+		case "..":
+			if depth <= 1 {
+				return true
+			}
+			depth--
+		default:
+			depth++
+		}
+	}
+	return false
+}
+
 func (g *gctx) dshOps(n int) []string {
 	rng := g.rng
 	type node struct {
@@ -213,6 +237,12 @@ func (g *gctx) dshOps(n int) []string {
 	var ops []string
 	cnt := func(op, cls string) { g.r.Count("gen:" + op + ":" + cls) }
 	chd := func(h int, name, cls string) {
+		if climbsOut(nodes[h].vpath + "/" + name) {
+			name, cls = pick(rng, []string{"up", "../up"}), "plain"
+			if climbsOut(nodes[h].vpath + "/" + name) {
+				name = "up"
+			}
+		}
 		ops = append(ops, fmt.Sprintf("chd %d %s %s", h, hx(name), pick(rng, perms)))
 		cnt("chd", cls)
 		k := fmt.Sprintf("%d/%s", h, name)
@@ -287,10 +317,16 @@ func (g *gctx) dshOps(n int) []string {
 			}
 		case x < 83:
 			name, cls := g.relName()
+			if climbsOut(nodes[h].vpath + "/" + name) {
+				name, cls = g.benign(), "benign"
+			}
 			ops = append(ops, fmt.Sprintf("henr %d %s", h, hx(name)))
 			cnt("henr", cls)
 		case x < 90:
 			name, cls := g.relName()
+			if climbsOut(nodes[h].vpath + "/" + name) {
+				name, cls = g.benign(), "benign"
+			}
 			ops = append(ops, fmt.Sprintf("hend %d %s", h, hxList(strings.Split(name, "/"))))
 			cnt("hend", cls)
 		default:
@@ -382,7 +418,7 @@ func generate(r *hxlib.Run, emit func(hxlib.Case)) {
 	})
 
 	// ---- generated cases ----------------------------------------------------------------------------
-	nCases := r.Budget(2000, 40000)
+	nCases := r.Budget(2000, 30000)
 	for ci := 0; ci < nCases; ci++ {
 		rootRel := pick(rng, rootRels)
 		comp := []string{"fst", "ds", "upd", "dsh"}[ci%4]
